@@ -134,7 +134,7 @@ mod verif_cobs {
         let len: usize = kani::any();
         let ci: usize = kani::any();
         let n: usize = kani::any();
-        kani::assume(len <= B && ci < len && n >= 1 && ci + n == len);
+        kani::assume(len <= B && ci < len && n >= 1 && n <= B && ci + n == len);
         let mut hv = HVec::<B>::new();
         let mut i = 0;
         while i < B {
